@@ -607,6 +607,38 @@ theorem credentials_resolved_in_this_call (cfg : Config) (inp : Input) (w : Worl
 
 /-! ### Histories: many `Authorize` calls on one handler -/
 
+theorem finish_installed_nts (w : World) (a : AsmDoc) (I res : Url) (cred : Cred) (probe : Bool) (pre : List Event)
+    (h : (finish w a I res cred probe pre).installed = true) : w.ntsFails = false := by
+  unfold finish at h
+  cases hn : w.ntsFails with
+  | false => rfl
+  | true =>
+    exfalso
+    revert h
+    simp only [hn]
+    repeat' split
+    all_goals simp_all
+
+/-- **token_source_constructor_error_installs_nothing**: when the configured `NewTokenSource` returns an
+error — AFTER every check passed and the code was exchanged — `Authorize` fails and `TokenSource()` is
+what it was (the token obtained is dropped, not half-installed). -/
+theorem token_source_constructor_error_installs_nothing (cfg : Config) (inp : Input) (w : World)
+    (hn : w.ntsFails = true) :
+    (authorize cfg inp w).installed = false := by
+  cases hh : (authorize cfg inp w).installed with
+  | false => rfl
+  | true =>
+    exfalso
+    rcases authorize_cases cfg inp w with h | h | ⟨_, h⟩ | ⟨_, _, _, h⟩ | ⟨_, _, _, _, h⟩ | ⟨_, _, _, _, _, h⟩
+    · rw [h] at hh; cases hh
+    · rw [h] at hh; cases hh
+    · rw [h] at hh; cases hh
+    · rw [h] at hh; cases hh
+    · rw [h] at hh; cases hh
+    · rw [h] at hh
+      have := finish_installed_nts _ _ _ _ _ _ _ hh
+      rw [hn] at this; cases this
+
 /-- The result of one round on a handler, as a function of the handler's FIXED configuration and the round alone. -/
 def roundResult (c : HConfig) (r : Round) : Result := authorize (c.at r.serverUrl) r.inp r.world
 
